@@ -51,7 +51,8 @@ for th in (False, True):
     cfg('LatticeMC_C19n' + sx, G, T, Q4, Q3, BOTH, TT, '{0, 1, 2}', CUTS, 1, 8 * k, '{"m11", "m00"}', 'FALSE', ['C19noties'])
     cfg('LatticeMC_C19x' + sx, '{"selfl", "line", "tri"}', T, Q4, Q3, FF, TT, '{0}', '{"none", "dist", "prob"}', 1, 40 * k, '{"m11"}', 'FALSE', ['C19all'])
     cfg('LatticeMC_C19e' + sx, '{"line", "selfl", "dead"}' if not th else G, T, Q4, Q3, BOTH, BOTH, '{0, 2}', CUTS, 2, 1 * ke, '{"m11"}', 'TRUE', ['EmitBehaviour'], debugs='{TRUE}')
-    cfg('LatticeMC_C10' + sx, G, T, Q4, Q3, BOTH, BOTH, '{0, 1, 2}', CUTS, 1, 4 * k, '{"m11", "m00"}', 'FALSE', ['C10order'])
+    cfg('LatticeMC_C10' + sx, G, T, Q4, Q3, BOTH, FF, '{0, 1, 2}', CUTS, 1, 8 * k, '{"m11", "m00"}', 'FALSE', ['C10order'])
+    cfg('LatticeMC_C10n' + sx, G, T, Q4, Q3, BOTH, TT, '{0, 1, 2}', CUTS, 1, 2 * k, '{"m11", "m00"}', 'FALSE', ['C10orderNE'])
     cfg('LatticeMC_ALLe' + sx, '{"line", "selfl", "dead"}' if not th else G, T, Q4, Q3, BOTH, BOTH, '{0, 1, 2}', '{"none", "dist", "prob"}', 3, 1 * ke, '{"m11"}', 'TRUE', ['EmitBehaviour'])
     # histories in which the matcher object is reused for a fresh match() (replayed on the real matcher by C03)
     cfg('LatticeMC_C03e' + sx, '{"line", "dead"}' if not th else '{"line", "dead", "selfl", "tri"}', T, Q4, Q3, BOTH, BOTH, '{0, 2}', '{"none", "dist"}', 3, 1 * ke, '{"m11"}', 'TRUE', ['EmitBehaviour'], reuse='TRUE')
